@@ -134,6 +134,39 @@ def _observe(idx, n, k):
             "raised": any(isinstance(x, str) for x in out + nxt)}
 
 
+class SpyMatrix(np.ndarray):
+    """the distance matrix handed to the scoring kernel; remembers with which pairs of index arrays it was read"""
+
+    def __new__(cls, a):
+        obj = np.asarray(a, dtype=float).view(cls)
+        obj.calls = []
+        return obj
+
+    def __array_finalize__(self, obj):
+        self.calls = getattr(obj, "calls", [])
+
+    def __getitem__(self, key):
+        if isinstance(key, tuple) and len(key) == 2 and all(isinstance(k_, np.ndarray) and k_.ndim == 1 for k_ in key):
+            self.calls.append((np.array(key[0], dtype=int), np.array(key[1], dtype=int)))
+        return np.asarray(super().__getitem__(key))
+
+
+def used_triples(spy):
+    """the triples of posterior samples a scoring call summed over, read off the three pairwise-distance look-ups d[i,j] + d[j,k] + d[i,k]
+    (independent of HOW the call produced its triples); None when the call did not read the matrix that way"""
+    c = spy.calls
+    if len(c) < 3 or not (len(c[0][0]) == len(c[1][0]) == len(c[2][0])):
+        return None
+    (a, b), (b2, k3), (a2, k3b) = c[0], c[1], c[2]
+    if not (np.array_equal(b, b2) and np.array_equal(a, a2) and np.array_equal(k3, k3b)):
+        return None
+    out = []
+    for x, y, z in zip(a.tolist(), b.tolist(), k3.tolist()):
+        t = sorted([x, y, z], reverse=True)
+        out.append({"ind": comb(t[0], 3) + comb(t[1], 2) + comb(t[2], 1), "t": t})
+    return out
+
+
 def _observe_dbal(n, budget, seed, P=2, E=3):
     picks = []
     real = G.get_combination_at_sorted_index
@@ -148,13 +181,17 @@ def _observe_dbal(n, budget, seed, P=2, E=3):
         pred = rng.normal(size=(P, n, E))
         var = np.exp(rng.normal(size=(P, n, E)))
         d = np.abs(rng.normal(size=(n, n)))
-        d = d + d.T
+        d = SpyMatrix(d + d.T)
         st, v = outcome(G.dbal_fast_gauss_scoring_vectorized, pred, var, d, rng, max_combos=budget)
     finally:
         G.get_combination_at_sorted_index = real
     ok_args = all(p["n"] == n and p["k"] == 3 for p in picks)
+    used = used_triples(d)
+    # "the triples used for scoring": what the call read from the distance matrix; the unranking calls it made (if it made any) are
+    # checked as (index, tuple) pairs on their own
     return {"kind": "dbal", "n": n, "budget": budget, "args_ok": ok_args, "raised": st != "ok",
-            "picks": [{"ind": p["ind"], "t": p["t"]} for p in picks]}
+            "picks": used if used is not None else [{"ind": p["ind"], "t": p["t"]} for p in picks],
+            "unranked": [{"ind": p["ind"], "t": p["t"]} for p in picks]}
 
 
 def _observe_scorer_session(rnd, ns=None, budget=None):
@@ -183,14 +220,20 @@ def _observe_scorer_session(rnd, ns=None, budget=None):
 
     def fast(*a, **kw):
         del cur[:]
-        dm = kw.get("distance_matrix", a[2] if len(a) > 2 else None)
-        n = int(dm.shape[0])
+        a = list(a)
+        if "distance_matrix" in kw:
+            spy = kw["distance_matrix"] = SpyMatrix(kw["distance_matrix"])
+        else:
+            spy = a[2] = SpyMatrix(a[2])
+        n = int(spy.shape[0])
         try:
             return real_f(*a, **kw)
         finally:
             # (the budget is the one the scorer was configured with, not whatever it hands down per chunk)
-            out.append({"kind": "dbal", "n": n, "budget": budget, "raised": False,
-                        "args_ok": all(p["n"] == n and p["k"] == 3 for p in cur), "picks": [{"ind": p["ind"], "t": p["t"]} for p in cur]})
+            used = used_triples(spy)
+            out.append({"kind": "dbal", "n": n, "budget": budget, "raised": False, "args_ok": all(p["n"] == n and p["k"] == 3 for p in cur),
+                        "picks": used if used is not None else [{"ind": p["ind"], "t": p["t"]} for p in cur],
+                        "unranked": [{"ind": p["ind"], "t": p["t"]} for p in cur]})
     G.get_combination_at_sorted_index, G.dbal_fast_gauss_scoring_vectorized = rec, fast
     try:
         rng = np.random.default_rng(rnd.randrange(1 << 30))
@@ -201,7 +244,7 @@ def _observe_scorer_session(rnd, ns=None, budget=None):
             d = np.abs(rng.normal(size=(n, n)))
             st, v = outcome(scorer.score, plates, Dense(d + d.T), h, rng, False)
             if st != "ok":
-                out.append({"kind": "dbal", "n": n, "budget": budget, "raised": True, "args_ok": True, "picks": [], "err": str(v)[:200]})
+                out.append({"kind": "dbal", "n": n, "budget": budget, "raised": True, "args_ok": True, "picks": [], "unranked": [], "err": str(v)[:200]})
     finally:
         G.get_combination_at_sorted_index, G.dbal_fast_gauss_scoring_vectorized = real_u, real_f
     return out
